@@ -236,12 +236,32 @@ func (c *compiler) evalFunctionLiteral(node *ast.FunctionLiteral) (interface{}, 
 	return &userFunction{Parameters: params, Block: block}, nil
 }
 
-func (c *compiler) evalPrefixExpression(node *ast.PrefixExpression) (interface{}, error) {
-	res, err := c.evalExpression(node.Right)
+// evalLenient evaluates an operand whose unknown identifier counts as nil when
+// forgive says so. A forgiven failure is not a failure of the statement that
+// raised it (a statement in the body of a called function, say): the statement
+// that was current before the operand is current again, so that a later error
+// is reported on its own line.
+func (c *compiler) evalLenient(node ast.Expression, forgive func(error) bool) (interface{}, error) {
+	stmt := c.curStmt
+	res, err := c.evalExpression(node)
 	if err != nil {
-		if _, ok := err.(*ErrUnknownIdentifier); !ok {
+		if !forgive(err) {
 			return nil, err
 		}
+		c.curStmt = stmt
+	}
+	return res, nil
+}
+
+func unknownIdentifier(err error) bool {
+	_, ok := err.(*ErrUnknownIdentifier)
+	return ok
+}
+
+func (c *compiler) evalPrefixExpression(node *ast.PrefixExpression) (interface{}, error) {
+	res, err := c.evalLenient(node.Right, unknownIdentifier)
+	if err != nil {
+		return nil, err
 	}
 
 	switch node.Operator {
@@ -253,11 +273,9 @@ func (c *compiler) evalPrefixExpression(node *ast.PrefixExpression) (interface{}
 }
 
 func (c *compiler) evalIfExpression(node *ast.IfExpression) (interface{}, error) {
-	con, err := c.evalExpression(node.Condition)
+	con, err := c.evalLenient(node.Condition, unknownIdentifier)
 	if err != nil {
-		if _, ok := err.(*ErrUnknownIdentifier); !ok {
-			return nil, err
-		}
+		return nil, err
 	}
 
 	if c.isTruthy(con) {
@@ -270,11 +288,9 @@ func (c *compiler) evalIfExpression(node *ast.IfExpression) (interface{}, error)
 func (c *compiler) evalElseAndElseIfExpressions(node *ast.IfExpression) (interface{}, error) {
 	var r interface{}
 	for _, eiNode := range node.ElseIf {
-		eiCon, err := c.evalExpression(eiNode.Condition)
+		eiCon, err := c.evalLenient(eiNode.Condition, unknownIdentifier)
 		if err != nil {
-			if _, ok := err.(*ErrUnknownIdentifier); !ok {
-				return nil, err
-			}
+			return nil, err
 		}
 
 		if c.isTruthy(eiCon) {
@@ -545,8 +561,8 @@ func (c *compiler) evalInfixExpression(node *ast.InfixExpression) (interface{}, 
 			node.Operator == "||" || node.Operator == "&&"
 	}
 
-	lres, err := c.evalExpression(node.Left)
-	if err != nil && !tolerated(err) {
+	lres, err := c.evalLenient(node.Left, tolerated)
+	if err != nil {
 		return nil, err
 	}
 
@@ -557,8 +573,8 @@ func (c *compiler) evalInfixExpression(node *ast.InfixExpression) (interface{}, 
 		return true, nil
 	}
 
-	rres, err := c.evalExpression(node.Right)
-	if err != nil && !tolerated(err) {
+	rres, err := c.evalLenient(node.Right, tolerated)
+	if err != nil {
 		return nil, err
 	}
 
